@@ -468,7 +468,20 @@ func famC17(g *Gen, o *Out, n int, thorough bool) {
 			case k < 7:
 				l = g.c17Dir(d, sb, 2)
 			case k < 8:
-				l = d.pbNode(ufsData(data.Data_File, g.bytes(g.pick(10)), nil), nil) // a file root -> <out>/unknown
+				// a file root -> <out>/unknown; half of the time something already claims that name:
+				// a symlink planted by an earlier directory root of the same archive, or lying in the
+				// output directory
+				if g.pick(2) == 0 {
+					t := strings.ReplaceAll(g.c17Target(), "SB", sb)
+					if g.pick(2) == 0 {
+						planted := d.pbNode(ufsData(data.Data_Directory, nil, nil),
+							[]dagpb.PBLink{dirEntry("unknown", d.pbNode(ufsData(data.Data_Symlink, []byte(t), nil), nil))})
+						roots = append(roots, planted.(cidlink.Link).Cid)
+					} else if fi, err := os.Stat(outArg); err == nil && fi.IsDir() {
+						os.Symlink(t, filepath.Join(sb, realOut, "unknown"))
+					}
+				}
+				l = d.pbNode(ufsData(data.Data_File, g.bytes(1+g.pick(10)), nil), nil)
 			case k < 9:
 				l = d.rawLeaf(g.bytes(5))
 			default:
